@@ -74,7 +74,7 @@ type stagePlan struct {
 func top(r *vf.Run) {
 	plans := []stagePlan{
 		{stage: "plain", cases: r.N(12, 150), ops: r.N(2000, 20000), maxG: r.N(8, 16), timeout: time.Duration(r.N(10, 40)) * time.Minute},
-		{stage: "race", race: true, cases: r.N(4, 30), ops: r.N(700, 4000), maxG: r.N(6, 12), timeout: time.Duration(r.N(10, 40)) * time.Minute},
+		{stage: "race", race: true, cases: r.N(8, 40), ops: r.N(500, 3000), maxG: r.N(6, 12), timeout: time.Duration(r.N(10, 40)) * time.Minute},
 	}
 	if v := os.Getenv("C02_ONLY"); v != "" { // debugging aid: C02_ONLY=plain|race
 		var keep []stagePlan
@@ -135,7 +135,17 @@ func runStage(r *vf.Run, p stagePlan) {
 			next = ended + 1 // the child stopped itself after an inconclusive (leaky) case
 		default:
 			// the child died: a fatal error of the code under test (or of the harness)
-			sig := crashSignature(headOf(ex.Output, 1<<20))
+			head := headOf(ex.Output, 1<<20)
+			if strings.Contains(head, "pthread_create failed") || strings.Contains(head, "out of memory") || strings.Contains(head, "cannot allocate memory") {
+				// a resource limit of the sandbox, not an answer of the code under test
+				r.Inconclusive(fmt.Sprintf("stage %s: child hit a resource limit (threads/memory) in case %d", p.stage, begun))
+				if begun < next {
+					begun = next
+				}
+				next = begun + 1
+				continue
+			}
+			sig := crashSignature(head)
 			r.Violate("crash:"+sig, fmt.Sprintf("stage %s: child process died (exit=%d signal=%s) while running case %d: %s", p.stage, ex.ExitCode, ex.Signal, begun, sig),
 				map[string]any{"stage": p.stage, "case": begun, "crash": crashExcerpt(headOf(ex.Output, 1<<20)), "tail": ex.Tail, "how": fmt.Sprintf("C02_ONLY=%s C02_CASE=%d VERIF_SEED=%d /verif/run.sh C02 %s", p.stage, begun, r.Seed, r.Tier)})
 			if begun < next {
@@ -254,10 +264,13 @@ func stripNumbers(s string) string {
 // fs/remote, cache, fs/layer.(*node) or fs/layer.(*file).
 //
 // Excluded (documented in NOTES.md):
-//   - both stacks run inside bodies of task.(*BackgroundTaskManager).InvokeBackgroundTask:
-//     InvokeBackgroundTask does not wait for a cancelled body before it retries, so two
-//     bodies of one background read overlap and write the same destination buffer. That is
-//     the defect of property C13 (DESIGN.md section 6); it is recorded here as
+//   - one stack is a body started by task.(*BackgroundTaskManager).InvokeBackgroundTask and
+//     the other stack is not a foreground access (no frame of main.(*walker),
+//     fs/layer.(*node) or fs/layer.(*file)): InvokeBackgroundTask does not wait for a
+//     cancelled body before it retries/returns, so a stale body still writes the destination
+//     buffer and the captured result variables while the retry body or the consumer of the
+//     buffer (the decompressor of the background-fetch walk, in errgroup goroutines) uses
+//     them. That is the defect of property C13 (DESIGN.md section 6); it is recorded here as
 //     "c13_overlap_races" and not as a C02 violation. A race between a background body and
 //     a foreground reader is NOT excluded.
 const repoMod = "github.com/containerd/stargz-snapshotter/"
@@ -266,15 +279,24 @@ func accountRaces(r *vf.Run, reps []vf.RaceReport) {
 	for _, rep := range reps {
 		r.Count("race_reports_total", 1)
 		hit := false
-		bg := [2]bool{}
+		body, chain, fg := [2]bool{}, [2]bool{}, [2]bool{}
 		for i, st := range rep.Access {
 			for _, fn := range st {
+				if strings.HasPrefix(fn, "main.(*walker)") {
+					fg[i] = true
+				}
 				if !strings.HasPrefix(fn, repoMod) {
 					continue
 				}
 				short := strings.TrimPrefix(fn, repoMod)
 				if strings.Contains(short, "task.(*BackgroundTaskManager).InvokeBackgroundTask") {
-					bg[i] = true
+					body[i] = true
+				}
+				if strings.Contains(short, "fs/layer.(*layer).backgroundFetch") {
+					chain[i] = true
+				}
+				if strings.Contains(short, "fs/layer.(*node)") || strings.Contains(short, "fs/layer.(*file)") {
+					fg[i] = true
 				}
 				for _, a := range attribution {
 					if strings.Contains(short, a) {
@@ -283,12 +305,16 @@ func accountRaces(r *vf.Run, reps []vf.RaceReport) {
 				}
 			}
 		}
+		_ = chain
+		// one side is a body of InvokeBackgroundTask and the other side is not a foreground
+		// (walker / node / file handle) access
+		c13 := (body[0] && !fg[1]) || (body[1] && !fg[0])
 		a, b := rep.InnermostRepoFrames()
 		if a > b {
 			a, b = b, a
 		}
 		switch {
-		case hit && bg[0] && bg[1]:
+		case hit && c13:
 			r.Count("c13_overlap_races", 1)
 			r.Distinct("excluded_races(C13 overlap of background bodies)", a+"|"+b)
 		case hit:
